@@ -43,21 +43,36 @@ class FakeTimeModule:
 
 
 class Script:
+    """Events are ('F', bytes) | ('N',) | ('E',) | ['L', data]: 'L' = the responder answers the frame the
+    interface wrote LAST with this data; it is resolved (in place) when the transport first looks at it."""
+
     def __init__(self, events):
         self.events = list(events)
         self.pos = 0
+        self.resolver = None
+
+    def _at(self, i):
+        e = self.events[i]
+        if e[0] == 'L' and self.resolver is not None:
+            r = self.resolver(e)
+            if isinstance(e, list):
+                e[:] = list(r)
+            else:
+                self.events[i] = r
+            e = self.events[i]
+        return e
 
     def next(self):
         if self.pos >= len(self.events):
             return ('N',)
-        e = self.events[self.pos]
+        e = self._at(self.pos)
         self.pos += 1
         return e
 
     def peek(self):
         if self.pos >= len(self.events):
             return ('N',)
-        return self.events[self.pos]
+        return self._at(self.pos)
 
     def unread(self):
         return len(self.events) - self.pos
@@ -65,6 +80,16 @@ class Script:
     def extend(self, events):
         self.events = self.events[self.pos:] + list(events)
         self.pos = 0
+
+
+def reply_to_wire(frame, data):
+    """what a responder answers to the request frame it saw on the wire"""
+    f = bytes(frame)
+    a = [f[3], (((f[1] >> 2) | 1) << 2) | (f[4] & 3)]
+    a.append((-sum(a)) % 256)
+    b = [f[0], (f[4] & 0xfc) | (f[1] & 3), f[5]] + list(data)
+    b.append((-sum(b)) % 256)
+    return bytes(a + b)
 
 
 # ---------------------------------------------------------------------------
@@ -279,6 +304,22 @@ def make_target(rs_sa, routing=None):
     if routing:
         t.set_routing([(r[0], r[1], r[2]) for r in routing])
     return t
+
+
+def probe(intf, rs_sa, targets=None):
+    """Ipmi.is_ipmc_accessible -> interface.is_ipmc_accessible(target); b'' for True, else the exception"""
+    if targets is None:
+        t = make_target(rs_sa, None)
+    else:
+        key = (rs_sa, repr(None))
+        if key not in targets:
+            targets[key] = make_target(rs_sa, None)
+        t = targets[key]
+    try:
+        r = intf.is_ipmc_accessible(t)
+        return b'' if r is True else ValueError('is_ipmc_accessible returned %r' % (r,))
+    except Exception as e:  # noqa
+        return e
 
 
 def call(intf, rs_sa, routing, lun, netfn, cmd, payload, targets=None):
